@@ -365,13 +365,25 @@ def run_cases(chk, cases):
         else:
             chk.dist("e2e:no-grammar-rule-for-enum-string")
     # two literals that follow each other directly (the second is the next statement): each keeps its own content
-    singles = [t for t in e2e if t[1] == "e2e" and t[3] is not None]
+    singles = [t for t in e2e if t[1] == "e2e" and t[3] is not None and t[3] != "TRUE"]
     rng_adj = random.Random(len(singles) * 7919 + 13)
     for _ in range(min(60, len(singles) * 2 if len(singles) > 1 else 0)):
         a, b = rng_adj.sample(singles, 2)
         sep = rng_adj.choice(["\n", " \n", "\n\n", "\n注：说明\n", "  \n  ".replace(" ", "")])
         sep_cps = [ord(ch) for ch in sep]
         e2e.append((a[0], "e2e", a[2] + sep_cps + b[2][len(OUTPUT_KW):], a[3]))
+    # a literal INSIDE a statement: further tokens follow on the line on which the literal closes (list item, first of two
+    # statements on a line); whatever the literal holds — line breaks included — the statement goes on after its closing quote
+    for t in rng_adj.sample(singles, min(80, len(singles))):
+        lit = t[2][len(OUTPUT_KW):]
+        pre, post, same = rng_adj.choice([("输出【", "，1】#1", 0), ("令Xq = ", "；输出Xq", 0), ("输出【1，", "】#2", 0), ("输出{", "}", 0),
+                                          ("如何Eq？\n    输入Mq\n    输出Mq\n\n输出（Eq：", "）", 0), ("输出", " == ", 1), ("输出", " 为 ", 1),
+                                          ("如何Eq？\n    输入Mq、Nq\n    输出Mq\n\n输出（Eq：", "、1）", 0)])
+        if same:
+            # the literal compared with itself: 真 whatever it holds
+            e2e.append((t[0], "e2e", [ord(ch) for ch in pre] + lit + [ord(ch) for ch in post] + lit, "TRUE"))
+        else:
+            e2e.append((t[0], "e2e", [ord(ch) for ch in pre] + lit + [ord(ch) for ch in post], t[3]))
     for cmd in ("e2e", "parse"):
         batch = [t for t in e2e if t[1] == cmd]
         if not batch:
@@ -385,6 +397,10 @@ def run_cases(chk, cases):
                 good = o.get("kind") == "error" and o.get("err", {}).get("class") == "syntax" and o["err"].get("code") == 27
                 what = "unterminated literal: expected syntax error 27, observed %s" % json.dumps(o, ensure_ascii=False)[:160]
                 sig = cmd + ":unterminated"
+            elif exp == "TRUE":
+                good = o.get("kind") == "value" and o.get("value") == {"t": "bool", "v": True}
+                what = "a literal compared with itself yields %s, expected 真" % json.dumps(o, ensure_ascii=False)[:160]
+                sig = "e2e:self-comparison"
             elif cmd == "e2e":
                 good = o.get("kind") == "value" and o.get("str") == exp
                 what = "输出‹literal› yields %s, expected text %s" % (
